@@ -131,9 +131,72 @@ func freeHullPolygon(t *rapid.T, ox int) [][]vkit.P2 {
 	return rings
 }
 
+// teethPolygon: a rectangle or an L-shaped shell (even lattice coordinates, sides of 12 and more) with a small
+// triangular hole whose apex is AT every vertex of the shell, and more such holes whose apex is at the MIDDLE of a side:
+// of no side, of every side, of the first k sides in stored order, or of a drawn subset. The rings touch in points only
+// (the polygon stays valid), yet no vertex of the shell - and, with every side taken, no middle of a side either - is
+// clear of the other rings: which ring is the shell has to be found out from some other point of it.
+func teethPolygon(t *rapid.T, ox int) [][]vkit.P2 {
+	W, H := 2*rapid.IntRange(12, 20).Draw(t, "tw"), 2*rapid.IntRange(12, 16).Draw(t, "th")
+	shell := [][2]int{{0, 0}, {W, 0}, {W, H}, {0, H}}
+	if rapid.Bool().Draw(t, "tl") {
+		W2, H2 := 2*rapid.IntRange(6, W/2-6).Draw(t, "tw2"), 2*rapid.IntRange(6, H/2-6).Draw(t, "th2")
+		shell = [][2]int{{0, 0}, {W, 0}, {W, H2}, {W2, H2}, {W2, H}, {0, H}}
+	}
+	n := len(shell)
+	sp := make([]vkit.P2, n)
+	for i, q := range shell {
+		sp[i] = ip(ox+q[0], q[1])
+	}
+	ref := [][][]vkit.P2{{sp}}
+	inside := func(x, y float64) bool { return vkit.PIP(vkit.MkP(float64(ox)+x, y), ref) == vkit.Inside }
+	rings := [][]vkit.P2{sp}
+	tooth := func(ax, ay, dx, dy int) {
+		var h []vkit.P2
+		if dx != 0 && dy != 0 {
+			h = []vkit.P2{ip(ox+ax, ay), ip(ox+ax+2*dx, ay+dy), ip(ox+ax+dx, ay+2*dy)}
+		} else {
+			h = []vkit.P2{ip(ox+ax, ay), ip(ox+ax+2*dx-dy, ay+2*dy+dx), ip(ox+ax+2*dx+dy, ay+2*dy-dx)}
+		}
+		a2 := (float64(h[1][0])-float64(h[0][0]))*(float64(h[2][1])-float64(h[0][1])) - (float64(h[2][0])-float64(h[0][0]))*(float64(h[1][1])-float64(h[0][1]))
+		if a2 < 0 {
+			h[1], h[2] = h[2], h[1]
+		}
+		rings = append(rings, h)
+	}
+	for _, q := range shell { // a tooth at every vertex, pointing into the shell along the diagonal that lies inside
+		for _, d := range [][2]int{{1, 1}, {-1, 1}, {-1, -1}, {1, -1}} {
+			if inside(float64(q[0])+1.5*float64(d[0]), float64(q[1])+1.5*float64(d[1])) && inside(float64(q[0])+2*float64(d[0]), float64(q[1])+float64(d[1])) && inside(float64(q[0])+float64(d[0]), float64(q[1])+2*float64(d[1])) {
+				tooth(q[0], q[1], d[0], d[1])
+				break
+			}
+		}
+	}
+	mode := rapid.SampledFrom([]string{"none", "all", "all", "first", "first", "some"}).Draw(t, "tmids")
+	k := rapid.IntRange(1, n-1).Draw(t, "tfirst")
+	for i := 0; i < n; i++ {
+		take := mode == "all" || (mode == "first" && i < k) || (mode == "some" && rapid.Bool().Draw(t, "tmid"))
+		if !take {
+			continue
+		}
+		a, b := shell[i], shell[(i+1)%n]
+		mx, my := (a[0]+b[0])/2, (a[1]+b[1])/2
+		for _, d := range [][2]int{{0, 1}, {0, -1}, {1, 0}, {-1, 0}} {
+			if (d[0] == 0) == (a[1] == b[1]) && inside(float64(mx)+float64(d[0]), float64(my)+float64(d[1])) {
+				tooth(mx, my, d[0], d[1])
+				break
+			}
+		}
+	}
+	return rings
+}
+
 func latticePolygon(t *rapid.T, ox int) [][]vkit.P2 {
 	if rapid.IntRange(0, 2).Draw(t, "freehull") == 0 {
 		return freeHullPolygon(t, ox)
+	}
+	if rapid.IntRange(0, 19).Draw(t, "teeth") == 11 {
+		return teethPolygon(t, ox)
 	}
 	W, H := rapid.IntRange(6, 30).Draw(t, "W"), rapid.IntRange(6, 20).Draw(t, "H")
 	m := 6
